@@ -114,6 +114,12 @@ def sensor_models(draw, max_bodies=5, max_sensors=10, min_sensors=3, history=Tru
   if draw(st.integers(0, 2)) == 0:
     xml = xml.replace('<option', '<option magnetic="%s"' % mg.fmt([draw(mg.num(-1, 1, 1)) for _ in range(3)]), 1)
 
+  # ---- limit margins (so that efc_pos - efc_margin differs from efc_pos)
+  for mt in list(re.finditer(r'<(joint|fixed|spatial) name="([a-z0-9_]+)"[^>]*limited="true"', xml)):
+    if draw(st.booleans()):
+      tag = '<%s name="%s"' % (mt.group(1), mt.group(2))
+      xml = xml.replace(tag, tag + ' margin="%s"' % mg.fmt(draw(mg.num(0.01, 0.3))), 1)
+
   sites = list(info['sites'])
   bsites = [s for s in sites if s != 's0']
   bodies = list(info['bodies'])
@@ -149,6 +155,8 @@ def sensor_models(draw, max_bodies=5, max_sensors=10, min_sensors=3, history=Tru
   info['static_bodies'] = sorted(static)
   rk4 = 'integrator="RK4"' in xml
   info['excluded_rk4_delay'] = 0
+  energy_flag = 'energy="enable"' in xml
+  info['excluded_ekinetic_energyflag'] = 0
   info['excluded_static_acc'] = 0
 
   def frame_objs():
@@ -270,6 +278,11 @@ def sensor_models(draw, max_bodies=5, max_sensors=10, min_sensors=3, history=Tru
       obj = 'body' if a['body'] != 'world' else 'worldbody'
     elif kind == 'global':
       el = draw(st.sampled_from(['clock', 'e_potential', 'e_kinetic']))
+      if el == 'e_kinetic' and energy_flag:
+        # known finding C28:ekinetic-stale (e_kinetic is evaluated in the position stage with a stale lazy flag when
+        # the energy flag is enabled): excluded by construction
+        info['excluded_ekinetic_energyflag'] += 1
+        el = 'e_potential'
     elif kind == 'collision':
       el = draw(st.sampled_from(['distance', 'normal', 'fromto']))
       usebody1 = draw(st.integers(0, 2)) == 0
@@ -296,8 +309,8 @@ def sensor_models(draw, max_bodies=5, max_sensors=10, min_sensors=3, history=Tru
       ref = 'body' if usebody2 else 'geom'
     elif kind == 'contact':
       el = 'contact'
-      first = draw(st.sampled_from(['none', 'geom1', 'body1', 'subtree1', 'site']))
-      second = draw(st.sampled_from(['none', 'geom2', 'body2', 'subtree2']))
+      first = draw(st.sampled_from(['none', 'geom1', 'body1', 'subtree1', 'subtree1', 'site']))
+      second = draw(st.sampled_from(['none', 'none', 'geom2', 'body2', 'subtree2']))
       if first == 'site' and not sites:
         first = 'none'
       for key in (first, second):
